@@ -60,20 +60,26 @@ Active(w, i) == w.msgs[i].k \in {"r", "w"}
 (*  rc     read -f -c CIRCUIT NAME   rp     read -p 2 -c CIRCUIT NAME        *)
 (*  rh     read -f -h ZZPBSBNNID     rhc    read -f -c CIRCUIT -h ...        *)
 (*  w      write -c CIRCUIT NAME 7   wh     write -h ...   whc  write -c C -h *)
-(*  g gx gq gp gw  GET /data/CIRCUIT/NAME?[exact|required&maxage=0|poll=3|   *)
-(*                 write][&user=U][&secret=S]   (a connection of its own)    *)
+(*  rhn    read -h ZZPBSBNNID        rcn    read -c CIRCUIT NAME   (cache ok) *)
+(*  rm     read -m 0 NAME            rhm    read -m 0 -h ZZPBSBNNID          *)
+(*  g gx gq gp gw gm  GET /data/CIRCUIT/NAME?[exact|required&maxage=0|poll=3 *)
+(*           |write|maxage=300][&user=U][&secret=S] (a connection of its own) *)
 (***************************************************************************)
 AuthOps == {"auth", "auth1"}
-ReadOps == {"r", "rf", "rc", "rp", "rh", "rhc"}
+ReadOps == {"r", "rf", "rc", "rp", "rh", "rhc", "rhn", "rcn", "rm", "rhm"}
 WriteOps == {"w", "wh", "whc"}
-HttpOps == {"g", "gx", "gq", "gp", "gw"}
+HttpOps == {"g", "gx", "gq", "gp", "gw", "gm"}
+(* things that happen beside the session's connection:                                                        *)
+(*  xr   ANOTHER telnet connection: [auth U S,] read -f -c CIRCUIT NAME   (fills the cache when U is granted)   *)
+(*  bus  another master reads the message on the bus; ebusd receives it passively and caches the value         *)
+ExtOps == {"xr", "bus"}
 
 (* the messages a command designates (a superset where the command is ambiguous) *)
 Targets(w, c) ==
   LET t == w.msgs[c.m] IN
-  CASE c.op \in {"r", "rf"}   -> {i \in Msgs(w) : w.msgs[i].n = t.n /\ w.msgs[i].k \in {"r", "u"}}
-    [] c.op \in {"rc", "rp"}  -> {i \in Msgs(w) : w.msgs[i].n = t.n /\ w.msgs[i].c = t.c /\ w.msgs[i].k \in {"r", "u"}}
-    [] c.op \in {"rh", "rhc", "wh", "whc"} -> {c.m}
+  CASE c.op \in {"r", "rf", "rm"} -> {i \in Msgs(w) : w.msgs[i].n = t.n /\ w.msgs[i].k \in {"r", "u"}}
+    [] c.op \in {"rc", "rp", "rcn", "xr"} -> {i \in Msgs(w) : w.msgs[i].n = t.n /\ w.msgs[i].c = t.c /\ w.msgs[i].k \in {"r", "u"}}
+    [] c.op \in {"rh", "rhc", "rhn", "rhm", "wh", "whc"} -> {c.m}
     [] c.op = "w"             -> {i \in Msgs(w) : w.msgs[i].n = t.n /\ w.msgs[i].c = t.c /\ w.msgs[i].k = "w"}
     [] c.op \in HttpOps       -> {i \in Msgs(w) : w.msgs[i].n = t.n /\ w.msgs[i].c = t.c
                                                   /\ (w.msgs[i].k \in {"r", "u"} \/ (c.op = "gw" /\ w.msgs[i].k = "w"))}
@@ -100,7 +106,7 @@ TelnetOk(GU, w, c, o, prevpr) ==
      /\ Gr = {} => o.rc \in {"nf", "na", "err"} /\ o.q = 0 /\ o.nb = 0     \* some error answer, nothing queued or sent
      /\ (Gr = T /\ T # {}) =>
           /\ o.rc = "ok"
-          /\ c.op \in ReadOps => o.val # <<>>
+          /\ c.op \in ReadOps \cup {"xr"} => o.val # <<>>
           /\ c.op \in WriteOps => o.bus # <<>>
           /\ c.op = "rp" => \A t \in T : w.msgs[t].k = "r" => o.pr[t] = 2
 
@@ -108,9 +114,10 @@ TelnetOk(GU, w, c, o, prevpr) ==
 HttpWith(GU, w, c, o, prevpr) ==
   LET T == Targets(w, c)
       Gr == T \cap GU
-      Vis == IF c.op = "gq" THEN {t \in Gr : w.msgs[t].k # "u"} ELSE Gr    \* 'required' skips passive messages
+      Must == IF c.op \in {"gq", "gm"} THEN {t \in Gr : w.msgs[t].k # "u"} ELSE Gr   \* 'required' may skip passive messages
+      May == IF c.op = "gq" THEN Must ELSE Gr
   IN /\ o.rc = "h200"
-     /\ SeqSet(o.val) = Vis
+     /\ Must \subseteq SeqSet(o.val) /\ SeqSet(o.val) \subseteq May
      /\ SeqSet(o.bus) \cup Changed(o, prevpr) \subseteq Gr
      /\ Gr = {} => o.q = 0 /\ o.nb = 0
      /\ c.op = "gp" => \A t \in Gr : Active(w, t) => o.pr[t] = 3
@@ -124,22 +131,26 @@ HttpOk(GT, w, c, o, prevpr) ==
 (* successfully authenticated one; after a FAILED auth the text leaves open whether an earlier successful    *)
 (* authentication survives, so both readings stay possible until an observation decides.  {} = rejected.     *)
 ZeroPr(w) == [i \in Msgs(w) |-> 0]
+(* one step of the monitor: prev = users the connection may be acting for, ppr = poll priorities before *)
+PStep(GT, w, prev, c, o, ppr) ==
+  IF prev = {} THEN {}
+  ELSE IF c.op \in AuthOps
+    THEN IF c.op = "auth" /\ SecretOk(w, c.u, c.s)
+         THEN (IF o.rc = "authok" /\ Quiet(o, ppr) THEN {c.u} ELSE {})
+         ELSE (IF o.rc # "authok" /\ Quiet(o, ppr) THEN prev \cup {0} ELSE {})
+  ELSE IF c.op \in HttpOps
+    THEN (IF HttpOk(GT, w, c, o, ppr) THEN prev ELSE {})
+  ELSE IF c.op = "xr"          \* a fresh connection: exactly the authenticated user, exactly the default levels otherwise
+    THEN (IF TelnetOk(GT[IF SecretOk(w, c.u, c.s) THEN c.u ELSE 0], w, c, o, ppr) THEN prev ELSE {})
+  ELSE IF c.op = "bus"         \* foreign traffic: ebusd itself sends nothing and changes no priority
+    THEN (IF Quiet(o, ppr) THEN prev ELSE {})
+  ELSE IF o.rc = "usage" /\ Quiet(o, ppr) THEN prev      \* the command form was refused as malformed
+  ELSE {u \in prev : TelnetOk(GT[u], w, c, o, ppr)}
+
 PUsers(GT, w, cmds, obs) ==
   LET U[k \in 0..Len(cmds)] ==
         IF k = 0 THEN {0}
-        ELSE LET c == cmds[k]
-                 o == obs[k]
-                 prev == U[k - 1]
-                 ppr == IF k = 1 THEN ZeroPr(w) ELSE obs[k - 1].pr
-             IN IF prev = {} THEN {}
-                ELSE IF c.op \in AuthOps
-                  THEN IF c.op = "auth" /\ SecretOk(w, c.u, c.s)
-                       THEN (IF o.rc = "authok" /\ Quiet(o, ppr) THEN {c.u} ELSE {})
-                       ELSE (IF o.rc # "authok" /\ Quiet(o, ppr) THEN prev \cup {0} ELSE {})
-                ELSE IF c.op \in HttpOps
-                  THEN (IF HttpOk(GT, w, c, o, ppr) THEN prev ELSE {})
-                ELSE IF o.rc = "usage" /\ Quiet(o, ppr) THEN prev      \* the command form was refused as malformed
-                ELSE {u \in prev : TelnetOk(GT[u], w, c, o, ppr)}
+        ELSE PStep(GT, w, U[k - 1], cmds[k], obs[k], IF k = 1 THEN ZeroPr(w) ELSE obs[k - 1].pr)
   IN U
 POk(GT, w, cmds, obs) == PUsers(GT, w, cmds, obs)[Len(cmds)] # {}      \* GT = GrantTable(Granted, w)
 (* first command at which the monitor rejects (0 = none) *)
@@ -222,8 +233,8 @@ SStep(HT, LT, w, st, c) ==
             IF SecretOk(w, c.u, c.s) THEN [st |-> [st EXCEPT !.user = c.u], o |-> SObs("authok", <<>>, <<>>, st.pr, c.u)]
             ELSE [st |-> st, o |-> SObs("authbad", <<>>, <<>>, st.pr, st.user)]
        [] c.op = "auth1" -> [st |-> st, o |-> SObs("usage", <<>>, <<>>, st.pr, st.user)]
-       [] c.op \in {"r", "rp"} ->
-            LET circ == IF c.op = "rp" THEN t.c ELSE ""
+       [] c.op \in {"r", "rp", "rcn"} ->
+            LET circ == IF c.op = "r" THEN "" ELSE t.c
                 msg == SFind(HU, w, circ, t.n, "r")
                 pr == IF c.op = "rp" /\ msg # 0 THEN SetPrio(st.pr, msg, 2) ELSE st.pr
                 cache == SFind(HU, w, circ, t.n, "u")
@@ -231,19 +242,25 @@ SStep(HT, LT, w, st, c) ==
             IN IF cm # 0 /\ cm \in st.data THEN cached(cm, pr)
                ELSE IF msg = 0 /\ cache # 0 THEN [st |-> st, o |-> SObs("err", <<>>, <<>>, st.pr, st.user)]   \* no data stored
                ELSE IF msg = 0 THEN nf ELSE busRead(msg, pr)
-       [] c.op \in {"rf", "rc"} ->
+       [] c.op \in {"rf", "rc", "rm"} ->
             LET msg == SFind(HU, w, IF c.op = "rc" THEN t.c ELSE "", t.n, "r")
             IN IF msg = 0 THEN nf ELSE busRead(msg, st.pr)
        [] c.op = "rhc" -> [st |-> st, o |-> SObs("usage", <<>>, <<>>, st.pr, st.user)]   \* executeRead refuses -h together with -c
-       [] c.op = "rh" -> IF c.m \notin HU THEN na ELSE busRead(c.m, st.pr)
+       [] c.op \in {"rh", "rhm"} -> IF c.m \notin HU THEN na ELSE busRead(c.m, st.pr)
+       [] c.op = "rhn" -> IF c.m \notin HU THEN na ELSE IF c.m \in st.data THEN cached(c.m, st.pr) ELSE busRead(c.m, st.pr)
+       [] c.op = "xr" -> LET msg == SFind(HT[IF SecretOk(w, c.u, c.s) THEN c.u ELSE 0], w, t.c, t.n, "r")
+                         IN IF msg = 0 THEN nf ELSE busRead(msg, st.pr)
+       [] c.op = "bus" -> [st |-> [st EXCEPT !.data = Sent(w, @, c.m)], o |-> SObs("bus", <<>>, <<>>, st.pr, st.user)]
        [] c.op = "w" -> LET msg == SFind(HU, w, t.c, t.n, "w") IN IF msg = 0 THEN nf ELSE busWrite(msg)
        [] c.op \in {"wh", "whc"} -> IF c.m \notin HU THEN na ELSE busWrite(c.m)
        [] c.op \in HttpOps ->
             IF (c.u # 0 \/ c.s # 0) /\ ~SecretOk(w, c.u, c.s)
             THEN [st |-> st, o |-> SObs("h403", <<>>, <<>>, st.pr, st.user)]
             ELSE LET lst == Targets(w, c) \cap LT[c.u]                                           \* findAll
-                     shown == IF c.op = "gq" THEN {i \in lst : w.msgs[i].k # "u"} ELSE lst
-                     rd == IF c.op = "gq" THEN shown ELSE {}
+                     shown == CASE c.op = "gq" -> {i \in lst : w.msgs[i].k # "u"}
+                                [] c.op = "gm" -> {i \in lst : w.msgs[i].k # "u" \/ i \in st.data}
+                                [] OTHER -> lst
+                     rd == CASE c.op = "gq" -> shown [] c.op = "gm" -> {i \in shown : i \notin st.data} [] OTHER -> {}
                      pr == IF c.op = "gp" THEN [i \in Msgs(w) |-> IF i \in lst /\ Active(w, i) THEN 3 ELSE st.pr[i]] ELSE st.pr
                      RECURSIVE sentAll(_, _)
                      sentAll(d, X) == IF X = {} THEN d ELSE LET x == CHOOSE y \in X : TRUE IN sentAll(Sent(w, d, x), X \ {x})
@@ -260,7 +277,7 @@ SConforms(HT, LT, w, cmds, obs) ==       \* HT, LT = SHasTable / SListTable of w
         IF k = 0 THEN [st |-> SInit(w), ok |-> TRUE]
         ELSE LET p == R[k - 1]
                  x == SStep(HT, LT, w, p.st, cmds[k])
-             IN [st |-> x.st, ok |-> p.ok /\ SAgrees(x.o, obs[k]) /\ (cmds[k].op \in HttpOps \/ x.o.usr = obs[k].usr)]
+             IN [st |-> x.st, ok |-> p.ok /\ SAgrees(x.o, obs[k]) /\ (cmds[k].op \in HttpOps \cup ExtOps \/ x.o.usr = obs[k].usr)]
   IN R[Len(cmds)].ok
 
 (* observation record as the harness writes it, from an S outcome (for S => P) *)
@@ -336,21 +353,37 @@ Worlds(tier) ==
 
 Cmd(op, m, u, s) == [op |-> op, m |-> m, u |-> u, s |-> s]
 Battery(lay) ==
-  <<Cmd("r", 1, 0, 0), Cmd("rf", 1, 0, 0), Cmd("rh", 1, 0, 0), Cmd("w", 2, 0, 0), Cmd("wh", 2, 0, 0), Cmd("rp", 1, 0, 0),
-    Cmd("g", 1, 0, 0), Cmd("rc", 1, 0, 0), Cmd("g", 1, 2, 2), Cmd("rhc", 1, 0, 0), Cmd("whc", 2, 0, 0), Cmd("r", 1, 0, 0)>>
-  \o (IF lay = 3 THEN <<Cmd("rc", 3, 0, 0), Cmd("rh", 3, 0, 0), Cmd("rp", 3, 0, 0)>> ELSE <<>>)
+  <<Cmd("r", 1, 0, 0), Cmd("rf", 1, 0, 0), Cmd("rhn", 1, 0, 0), Cmd("rh", 1, 0, 0), Cmd("w", 2, 0, 0), Cmd("wh", 2, 0, 0),
+    Cmd("rp", 1, 0, 0), Cmd("g", 1, 0, 0), Cmd("rc", 1, 0, 0), Cmd("g", 1, 2, 2), Cmd("rhc", 1, 0, 0), Cmd("whc", 2, 0, 0),
+    Cmd("rcn", 1, 0, 0), Cmd("gm", 1, 0, 0)>>
+  \o (IF lay = 3 THEN <<Cmd("rc", 3, 0, 0), Cmd("rh", 3, 0, 0), Cmd("rp", 3, 0, 0), Cmd("rhn", 3, 0, 0)>> ELSE <<>>)
+
+(* every read form with and without -f / -m 0 for slot m; cache use is allowed in the forms of the first line *)
+ReadForms(m) ==
+  <<Cmd("rhn", m, 0, 0), Cmd("rcn", m, 0, 0), Cmd("r", m, 0, 0), Cmd("g", m, 0, 0), Cmd("gm", m, 0, 0), Cmd("rp", m, 0, 0),
+    Cmd("rhm", m, 0, 0), Cmd("rm", m, 0, 0), Cmd("rh", m, 0, 0), Cmd("rf", m, 0, 0), Cmd("rc", m, 0, 0), Cmd("gq", m, 0, 0)>>
+(* warm cache: the value of a levelled message is in the cache - put there by authorized clients on OTHER connections  *)
+(* or by passive reception - when a client that never authenticated (or failed to, on a fresh connection: the monitor   *)
+(* knows its user exactly) tries every read form: cold first, then after each way of warming.                           *)
+WarmSession(lay, p) ==
+  LET one(m) == <<Cmd("rhn", m, 0, 0)>>                                             \* cold cache
+                \o <<Cmd("xr", m, 1, 1), Cmd("xr", m, 2, 2)>> \o ReadForms(m)        \* warmed by whoever is granted
+                \o <<Cmd("bus", m, 0, 0)>> \o ReadForms(m)                           \* warmed by passive reception
+                \o <<Cmd("xr", m, 1, 9), Cmd("xr", m, 3, 1), Cmd("rhn", m, 0, 0)>>    \* other connections that fail to authenticate
+  IN p \o one(1) \o (IF lay = 3 THEN <<Cmd("bus", 3, 0, 0), Cmd("rhn", 3, 0, 0), Cmd("rcn", 3, 0, 0), Cmd("gm", 3, 0, 0)>> ELSE <<>>)
+WarmPrefixes == {<<>>, <<Cmd("auth", 1, 1, 9)>>, <<Cmd("auth", 1, 3, 1)>>, <<Cmd("auth1", 1, 1, 0)>>}
 
 AuthPrefixes(tier) ==
   {<<>>, <<Cmd("auth", 1, 1, 1)>>, <<Cmd("auth", 1, 2, 2)>>, <<Cmd("auth", 1, 1, 9)>>, <<Cmd("auth", 1, 1, 2)>>}
   \cup (IF tier = "thorough"
-        THEN {<<Cmd("auth", 1, 3, 1)>>, <<Cmd("auth1", 1, 1, 0), Cmd("auth", 1, 1, 1), Cmd("auth", 1, 2, 9)>>}
+        THEN {<<Cmd("auth1", 1, 1, 0), Cmd("auth", 1, 1, 1), Cmd("auth", 1, 2, 9)>>}    \* (unknown user: see WarmPrefixes)
         ELSE {})
 
 Creds(tier) == {<<0, 0>>, <<1, 1>>, <<2, 2>>, <<1, 9>>, <<1, 0>>, <<3, 1>>}
                \cup (IF tier = "thorough" THEN {<<0, 9>>, <<1, 2>>} ELSE {})
 
 (* all HTTP requests of a layout in one session, in a fixed order *)
-OpNo(op) == CASE op = "g" -> 1 [] op = "gx" -> 2 [] op = "gq" -> 4 [] op = "gp" -> 3 [] op = "gw" -> 5 [] OTHER -> 0
+OpNo(op) == CASE op = "g" -> 1 [] op = "gx" -> 2 [] op = "gq" -> 4 [] op = "gp" -> 3 [] op = "gw" -> 5 [] op = "gm" -> 6 [] OTHER -> 0
 CmdKey(c) == OpNo(c.op) * 1000 + c.m * 100 + c.u * 10 + c.s
 RECURSIVE CmdsInOrder(_)
 CmdsInOrder(S) == IF S = {} THEN <<>> ELSE
@@ -364,6 +397,7 @@ Sessions(tier) ==
   { [lay |-> lay, cmds |-> p \o Battery(lay) \o q \o Battery(lay)] :
       lay \in 1..3, p \in AuthPrefixes(tier), q \in AuthPrefixes(tier) \ {<<>>} }
   \cup { [lay |-> lay, cmds |-> HttpSession(tier, lay) \o <<Cmd("auth", 1, 1, 1)>> \o Battery(lay)] : lay \in 1..3 }
+  \cup { [lay |-> lay, cmds |-> WarmSession(lay, p)] : lay \in 1..3, p \in WarmPrefixes }
 
 SinkUsers == 0..3
 
